@@ -1,9 +1,13 @@
 (* C05 — Clients that sync through the server end up identical to each other and to it.
-   The system is Model/Net.v (store + clients + datatypes; events: local calls, transactions,
-   exchanges).  The full statement is C05_statement_*; what is machine-checked so far are the
-   ingredients it decomposes into (checkpoint monotonicity, exactly-the-log-suffix delivery, the
-   server's log invariant, convergence of equal operation sets); the composition over Net.v
-   is not yet proved and the statement is kept here as a definition, not as a theorem. *)
+   Two systems are used.  Model/Net.v (store + clients + datatypes; events: local calls, transactions, exchanges with
+   every entry mode) is what the correspondence check replays; the statement over it, C05_statement_list, is kept as a
+   definition.  Proofs/Protocol.v is the steady state of one datatype (subscribed clients, local operations,
+   exchanges whose answers may be lost): for it the protocol half of C05 is a theorem — (8) below: every client
+   executes exactly the other clients' operations of the log prefix it has seen, in log order, each once, checkpoints
+   never move back — built from the one-exchange theorems (6), (7) about the modelled server handler and the modelled
+   ApplyPushPullPack.  Together with "equal operation sets give equal states" ((4), instantiated for counter and map in
+   C01) this is C05 for the steady state; what remains unproved is the entry phase (create / subscribe /
+   subscribe-or-create transitions of Net.v), transactions as units, and the list / Document instances of (4). *)
 From Coq Require Import List NArith Permutation.
 From Orda.Model Require Import Base Time Ops Counter Map List Datatype CheckCrdt Server Wire Net.
 From Orda.Proofs Require Import OrderFacts Permute Sys CounterFacts MapFacts MapConv ServerFacts WireFacts.
@@ -72,3 +76,242 @@ Theorem C05_executed_is_all_when_counted : forall own c r,
   incoming own false c r = Some others.
 Proof. exact incoming_takes_all. Qed.
 Print Assumptions C05_executed_is_all_when_counted.
+
+(* (6) ONE EXCHANGE, END TO END.  A subscribed client with checkpoint (s, cc) sends its pending operations to a
+   reachable store; the request is accepted.  Premises relating the two sides (they are what the retry protocol
+   maintains: answers may be lost, requests repeated): the client has not seen beyond the log (s <= End); the server has
+   acknowledged at least what the client knows (cc <= recorded cseq); the own operations the server holds beyond cc
+   lie after s in the log.  Then the answer carries the log entries s+1..End in log order, the client executes exactly
+   those of them that are not its own, in that order, each once, and the answer's checkpoint is the new end of the log
+   with the newly acknowledged sequence number — so the next exchange starts exactly where this one ended. *)
+From Orda.Proofs Require Import ClientOrder ExchangeFacts.
+Theorem C05_one_exchange_delivers_exactly : forall db colname col cuid req d0 s cc cp1 newdocs,
+  LogInv db -> In d0 (s_dts db) -> dd_col d0 = col -> p_duid req = dd_duid d0 -> p_opt req = 0%N ->
+  sseq (p_cp req) = s -> honest_pack cuid req ->
+  let D := dd_duid d0 in let e := dd_end d0 in
+  let cp0 := match alookup str_eqb cuid (dd_rw d0) with Some c => c | None => mkCp 0 0 end in
+  let log := map od_op (get_ops db D (s + 1)) in
+  let own := fun o => str_eqb (o_cuid (op_id o)) cuid in
+  (s <= e)%N -> (cc <= cseq cp0)%N ->
+  N.of_nat (length (filter own log)) = (cseq cp0 - cc)%N ->
+  (e + N.of_nat (length (p_ops req)) < 4611686018427387904)%N -> (cseq cp0 + N.of_nat (length (p_ops req)) < 4611686018427387904)%N ->
+  push_ops D col (mkCp e (cseq cp0)) (p_ops req) [] = Some (cp1, newdocs) ->
+  let resp := snd (fst (handle_pack db colname col cuid req)) in
+  p_err resp = None /\
+  p_cp resp = mkCp (e + N.of_nat (length newdocs)) (cseq cp0 + N.of_nat (length newdocs)) /\
+  map od_sseq (get_ops db D (s + 1)) = filter (fun x => (s + 1 <=? x)%N) (nseq 1 (N.to_nat e)) /\
+  incoming cuid false (mkCp s cc) resp = Some (filter (fun o => negb (own o)) log).
+Proof. exact normal_exchange_delivers. Qed.
+Print Assumptions C05_one_exchange_delivers_exactly.
+
+(* non-vacuity of (6): u creates with two operations; v subscribes; u pushes a third operation and loses the answer;
+   v pushes one; now u, still at checkpoint (2,2), re-sends its third operation together with a fourth: all premises
+   hold, the fourth is stored, and u executes exactly v's operation *)
+Example C05_one_exchange_example :
+  let c := [99]%N in let u := [117]%N in let v := [118]%N in let k := [107]%N in let col := [65]%N in
+  let o1 := OSnap (mkOpid 0 1 u 1) in let o2 := OInc (mkOpid 0 2 u 2) 5 in let o3 := OInc (mkOpid 0 3 u 3) 7 in
+  let o4 := OInc (mkOpid 0 4 u 4) 9 in let p1 := OInc (mkOpid 0 3 v 1) 1 in
+  let rs := [RCollection col; RClient col u; RClient col v;
+             RPushPull col u [mkPpp k c bit_create (mkCp 0 2) 0 [o1; o2] None];
+             RPushPull col v [mkPpp k c bit_subscribe (mkCp 0 0) 0 [] None];
+             RPushPull col u [mkPpp k c 0 (mkCp 2 3) 0 [o3] None];
+             RPushPull col v [mkPpp k c 0 (mkCp 2 1) 0 [p1] None]] in
+  let db := fold_left serve rs sdb_init in
+  let req := mkPpp k c 0 (mkCp 2 4) 0 [o3; o4] None in
+  match s_dts db with
+  | [d0] =>
+      let cp0 := match alookup str_eqb u (dd_rw d0) with Some x => x | None => mkCp 0 0 end in
+      In d0 (s_dts db) /\ dd_col d0 = 1%N /\ p_duid req = dd_duid d0 /\ honest_pack u req /\
+      (2 <= dd_end d0)%N /\ (2 <= cseq cp0)%N /\
+      N.of_nat (length (filter (fun o => str_eqb (o_cuid (op_id o)) u) (map od_op (get_ops db (dd_duid d0) 3)))) = (cseq cp0 - 2)%N /\
+      option_map (fun x => length (snd x)) (push_ops (dd_duid d0) 1 (mkCp (dd_end d0) (cseq cp0)) (p_ops req) []) = Some 1%nat /\
+      incoming u false (mkCp 2 2) (snd (fst (handle_pack db col 1 u req))) = Some [p1] /\
+      p_cp (snd (fst (handle_pack db col 1 u req))) = mkCp 5 4
+  | _ => False
+  end.
+Proof. cbv zeta. vm_compute. repeat split; try reflexivity; try (left; reflexivity); try discriminate; repeat constructor. Qed.
+Print Assumptions C05_one_exchange_example.
+
+(* (7) ... and the client ends with the answer's checkpoint after handing exactly those operations, in that order, to the
+   routine that executes remote operations *)
+Theorem C05_one_exchange_client_state :
+  forall (St call J : Type) (k_init : St) (k_remote : St -> op -> St) (k_export : St -> J)
+         (w : @wdt St call J) resp s cc e a k ops,
+    w_state w = SubscribedSt -> d_cp (w_d w) = mkCp s cc ->
+    p_opt resp = 0%N -> p_cp resp = mkCp (e + a) (k + a) -> (s <= e)%N -> (cc <= k)%N ->
+    incoming (o_cuid (d_oid (w_d w))) false (mkCp s cc) resp = Some ops ->
+    apply_pack St call J k_init k_remote k_export w resp =
+    match receive_ops St call J k_remote (set_checkpoint St call J (w_d w) (mkCp (e + a) (k + a))) ops with
+    | ROk _ _ _ d3 => AOk _ _ _ (mkWdt d3 SubscribedSt (w_duid w) (w_key w)) (mkApplied None false false)
+    | RError _ _ _ d3 => AOk _ _ _ (mkWdt d3 SubscribedSt (w_duid w) (w_key w)) (mkApplied None false true)
+    | _ => APanic _ _ _
+    end.
+Proof. exact normal_exchange_client. Qed.
+Print Assumptions C05_one_exchange_client_state.
+
+(* (8) THE PROTOCOL, SYSTEM LEVEL (Proofs/Protocol.v).  One datatype, any number of subscribed clients; the server is the
+   modelled handler, a client is its checkpoint, its pending operations and the list of operations it has executed, and
+   treats an answer as ApplyPushPullPack does ((6) and (7) are the bridge).  Events in any order: a client issues its
+   next operation; a client exchanges with the server, and the answer may be lost (so requests are repeated and carry
+   operations the server already has).  [PInv] is the invariant proved for every reachable state: the store invariants
+   of C06, the client's checkpoint within the log, the server's acknowledgement between what the client knows and what
+   it has issued, the own operations the client does not know to be stored lying beyond its checkpoint, and — the
+   statement of C05/C07 — what the client has executed being exactly the other clients' operations among the log
+   entries it has seen, in log order, each once. *)
+From Orda.Proofs Require Import Protocol.
+Theorem C05_protocol_exactly_once : forall colname col D key ty st0 evs,
+  PInv col D st0 ->
+  let st := prun colname col D key ty st0 evs in
+  LogInv (ps_db st) /\
+  (forall c, In c (ps_cl st) ->
+     pc_exec c = filter (fun o => negb (own_of (pc_cuid c) o)) (firstn (N.to_nat (pc_s c)) (logops D (ps_db st)))) /\
+  (forall d u, In d (s_dts (ps_db st)) -> seqs_of (s_ops (ps_db st)) (dd_duid d) u = nseq 1 (N.to_nat (ack d u))).
+Proof. exact protocol_exactly_once. Qed.
+Print Assumptions C05_protocol_exactly_once.
+
+(* once a client has seen the whole log it has executed every operation of the log that is not its own, in log order:
+   clients that have synced with nothing left to pull have executed the same operations (and their own are in the log) *)
+Theorem C05_protocol_quiescent : forall colname col D key ty st0 evs,
+  PInv col D st0 ->
+  let st := prun colname col D key ty st0 evs in
+  forall d0, In d0 (s_dts (ps_db st)) -> dd_duid d0 = D ->
+  forall c, In c (ps_cl st) -> pc_s c = dd_end d0 ->
+    pc_exec c = filter (fun o => negb (own_of (pc_cuid c) o)) (logops D (ps_db st)).
+Proof. exact protocol_quiescent. Qed.
+Print Assumptions C05_protocol_quiescent.
+
+(* a client's checkpoint never moves back *)
+Theorem C05_protocol_checkpoint_monotone : forall colname col D key ty st ev i c c',
+  nth_error (ps_cl st) i = Some c -> nth_error (ps_cl (pstep colname col D key ty st ev)) i = Some c' ->
+  (pc_s c <= pc_s c')%N /\ (pc_cc c <= pc_cc c')%N.
+Proof. exact checkpoint_monotone. Qed.
+Print Assumptions C05_protocol_checkpoint_monotone.
+
+(* non-vacuity: u has created the datatype, v has subscribed — this state satisfies the invariant; then u issues an
+   operation and loses the answer to its push, v issues one and syncs, u syncs (re-sending), v syncs: u has executed
+   v's operation, v has executed u's two, each once *)
+Example C05_protocol_example :
+  let c := [99]%N in let u := [117]%N in let v := [118]%N in let k := [107]%N in let col := [65]%N in
+  let o1 := OSnap (mkOpid 0 1 u 1) in let o2 := OInc (mkOpid 0 2 u 2) 5 in let p1 := OInc (mkOpid 0 2 v 1) 1 in
+  let rs := [RCollection col; RClient col u; RClient col v;
+             RPushPull col u [mkPpp k c bit_create (mkCp 0 1) 0 [o1] None];
+             RPushPull col v [mkPpp k c bit_subscribe (mkCp 0 0) 0 [] None]] in
+  let st0 := mkPs (fold_left serve rs sdb_init) [mkPc u 1 1 [] []; mkPc v 1 0 [] [o1]] in
+  let evs := [PLocal 0 o2; PSync 0 true; PLocal 1 p1; PSync 1 false; PSync 0 false; PSync 1 false] in
+  PInv 1 c st0 /\
+  map (fun x => (pc_s x, pc_cc x, pc_buf x, pc_exec x)) (ps_cl (prun col 1 c k 0 st0 evs)) = [(3, 2, [], [p1]); (3, 1, [], [o1; o2])]%N.
+Proof.
+  cbv zeta. split; [|vm_compute; reflexivity].
+  split; [apply log_invariant|]. split; [apply client_order; repeat constructor|]. split; [repeat constructor; cbn; intuition discriminate|].
+  eexists. split; [vm_compute; left; reflexivity|]. split; [reflexivity|]. split; [reflexivity|].
+  repeat constructor; vm_compute; try reflexivity; try discriminate.
+Qed.
+Print Assumptions C05_protocol_example.
+
+(* (9) LATE SUBSCRIBERS and the network (Proofs/ProtocolLate.v, Proofs/ProtocolJoin.v): the system of (8) with every answer
+   ever given deliverable late, out of order and repeatedly ([LLate]), and with clients that join at any time by
+   Subscribe(key) ([JJoin v Dv]: the server's subscribe path and the subscribe branch of ApplyPushPullPack — the joiner
+   is answered with the whole log and executes all of it).  [JInv] = the invariant of (8) for the base system, the
+   description of every answer in the network, and the datatype keeping its key and type. *)
+From Orda.Proofs Require Import ProtocolLate ProtocolJoin.
+Theorem C05_protocol_with_late_subscribers : forall colname col D key ty st0 evs,
+  JInv col D key ty st0 ->
+  let st := l_base (jrun colname col D key ty st0 evs) in
+  LogInv (ps_db st) /\
+  (forall c, In c (ps_cl st) ->
+     pc_exec c = foreign (pc_cuid c) (firstn (N.to_nat (pc_s c)) (logops D (ps_db st)))) /\
+  (forall d u, In d (s_dts (ps_db st)) -> seqs_of (s_ops (ps_db st)) (dd_duid d) u = nseq 1 (N.to_nat (ack d u))).
+Proof. exact joiners_exactly_once. Qed.
+Print Assumptions C05_protocol_with_late_subscribers.
+
+(* non-vacuity: u has created the datatype and is alone; it issues an operation and syncs; w subscribes late and receives
+   both operations; w issues one and syncs; u's old answer arrives again; u syncs: everybody has everything, once *)
+Example C05_late_subscriber_example :
+  let c := [99]%N in let u := [117]%N in let w := [119]%N in let k := [107]%N in let col := [65]%N in
+  let o1 := OSnap (mkOpid 0 1 u 1) in let o2 := OInc (mkOpid 0 2 u 2) 5 in let q1 := OInc (mkOpid 0 3 w 1) 1 in
+  let rs := [RCollection col; RClient col u; RClient col w;
+             RPushPull col u [mkPpp k c bit_create (mkCp 0 1) 0 [o1] None]] in
+  let st0 := mkLs (mkPs (fold_left serve rs sdb_init) [mkPc u 1 1 [] []]) [] in
+  let evs := [JBase (LBase (PLocal 0 o2)); JBase (LBase (PSync 0 false)); JJoin w [100]%N; JBase (LBase (PLocal 1 q1));
+              JBase (LBase (PSync 1 false)); JBase (LLate 0 0); JBase (LBase (PSync 0 false)); JBase (LLate 1 0)] in
+  JInv 1 c k 0 st0 /\
+  map (fun x => (pc_cuid x, pc_s x, pc_cc x, pc_buf x, pc_exec x)) (ps_cl (l_base (jrun col 1 c k 0 st0 evs)))
+  = [(u, 3, 2, [], [q1]); (w, 3, 1, [], [o1; o2])]%N.
+Proof.
+  cbv zeta. split; [|vm_compute; reflexivity].
+  apply JInv_of_LInv; [| |reflexivity].
+  - apply LInv_of_PInv; [|intros d0 Hin Hd; vm_compute in Hin; destruct Hin as [<-|[]]; vm_compute; reflexivity].
+    split; [apply log_invariant|]. split; [apply client_order; repeat constructor|]. split; [repeat constructor; cbn; intuition discriminate|].
+    eexists. split; [vm_compute; left; reflexivity|]. split; [reflexivity|]. split; [reflexivity|].
+    repeat constructor; vm_compute; try reflexivity; try discriminate.
+  - intros d Hin Hd. vm_compute in Hin. destruct Hin as [<-|[]]. split; reflexivity.
+Qed.
+Print Assumptions C05_late_subscriber_example.
+
+(* (10) THE ABSTRACT CLIENT IS THE WIRED CLIENT (Proofs/ClientRefine.v): the client record of (8)/(9) is Model/Wire.v's
+   client — the model the correspondence check runs against the Go client — seen through [absc] (own identifier, checkpoint,
+   operations still to be pushed; the executed operations as a ghost).  For a subscribed datatype the request is the
+   abstract request, and a regular answer (no error, not a subscribe answer, no transaction units) moves checkpoint and
+   pending operations exactly as the sync step of (8) does, and the datatype state is the kernel's remote execution of
+   exactly the operations [incoming] selects, in order. *)
+From Orda.Model Require Import Datatype.
+From Orda.Proofs Require Import ClientRefine.
+Theorem C05_wired_request_is_abstract_request : forall (St call J : Type) (k_type : N) (w : wdt St call J) (exec : list op),
+  w_state w = SubscribedSt ->
+  mkpack St call J k_type w = preq (w_duid w) (w_key w) k_type (absc St call J w exec).
+Proof. exact mkpack_is_preq. Qed.
+Print Assumptions C05_wired_request_is_abstract_request.
+
+Theorem C05_wired_answer_is_abstract_step : forall (St call J : Type) (k_init : St) (k_remote : St -> op -> St) (k_export : St -> J)
+    (w : wdt St call J) (r : ppp) (exec ops : list op),
+  w_state w = SubscribedSt -> has (p_opt r) bit_error = false -> has (p_opt r) bit_subscribe = false ->
+  BufInv St call J (w_d w) ->
+  incoming (o_cuid (d_oid (w_d w))) false (d_cp (w_d w)) r = Some ops -> no_tx ops ->
+  exists (w' : wdt St call J) (a : Wire.applied),
+    apply_pack St call J k_init k_remote k_export w r = AOk St call J w' a /\
+    w_state w' = SubscribedSt /\ w_duid w' = w_duid w /\ w_key w' = w_key w /\
+    d_snap (w_d w') = fold_left k_remote ops (d_snap (w_d w)) /\
+    BufInv St call J (w_d w') /\
+    (let c := absc St call J w exec in
+     let s' := N.max (pc_s c) (sseq (p_cp r)) in
+     let cc' := N.max (pc_cc c) (cseq (p_cp r)) in
+     absc St call J w' (exec ++ ops) =
+     mkPc (pc_cuid c) s' cc' (skipn (N.to_nat (cc' - pc_cc c)) (pc_buf c)) (pc_exec c ++ ops)).
+Proof. exact apply_pack_refines. Qed.
+Print Assumptions C05_wired_answer_is_abstract_step.
+
+(* (11) THE WHOLE LIFE OF A DATATYPE (Proofs/ProtocolCreate.v, with Proofs/Recovery.v and Proofs/ProtocolFault.v of C08):
+   the invariant of (8)/(9) is not an assumption — the creating exchange establishes it.  Any store reached by requests of
+   honest clients; a client creates the datatype under an unused key with its snapshot operation; from then on ANY history —
+   local operations, exchanges, lost, late and repeated answers, clients subscribing at any time, storage commands failing
+   during any exchange ([xrun], C08).  In every state reached, on the acknowledged store [clean] (= the store itself when
+   no command has failed): the log invariant; every client has executed exactly the foreign operations of the log prefix it
+   has seen, in log order, each once; every client's operations are stored exactly once in issue order; and a client that
+   has synced to the end of the log has executed the whole log but its own operations. *)
+From Orda.Proofs Require Import FaultFacts Recovery ProtocolFault ProtocolCreate.
+Theorem C05_datatype_life : forall colname col D key ty rs u o1 evs,
+  Forall honest rs ->
+  let db := fold_left serve rs sdb_init in
+  find_dt db D = None -> find_dt_by_key db col key = None -> o_cuid (op_id o1) = u -> oseq' o1 = 1%N ->
+  let '(db', resp, pubs) := handle_pack db colname col u (mkPpp key D bit_create (mkCp 0 1) ty [o1] None) in
+  p_err resp = None /\
+  let st := xrun colname col D key ty (mkLs (mkPs db' [mkPc u 1 1 [] []]) []) evs in
+  let dbc := clean (dbof st) in
+  LogInv dbc /\
+  (forall c, In c (ps_cl (l_base st)) ->
+     pc_exec c = foreign (pc_cuid c) (firstn (N.to_nat (pc_s c)) (logops D dbc))) /\
+  (forall d w, In d (s_dts dbc) -> seqs_of (s_ops dbc) (dd_duid d) w = nseq 1 (N.to_nat (ack d w))) /\
+  (forall d0, In d0 (s_dts dbc) -> dd_duid d0 = D -> forall c, In c (ps_cl (l_base st)) -> pc_s c = dd_end d0 ->
+     pc_exec c = foreign (pc_cuid c) (logops D dbc)).
+Proof. exact datatype_life. Qed.
+Print Assumptions C05_datatype_life.
+
+(* the creating exchange alone: answer without error, and the invariant with the creator as the only client *)
+Theorem C05_creation_establishes_invariant : forall colname col D key ty db u o1,
+  LogInv db -> ClientInv db -> find_dt db D = None -> find_dt_by_key db col key = None ->
+  o_cuid (op_id o1) = u -> oseq' o1 = 1%N ->
+  let req := mkPpp key D bit_create (mkCp 0 1) ty [o1] None in
+  let '(db', resp, pubs) := handle_pack db colname col u req in
+  p_err resp = None /\ JInv col D key ty (mkLs (mkPs db' [mkPc u 1 1 [] []]) []).
+Proof. exact creation_establishes_invariant. Qed.
+Print Assumptions C05_creation_establishes_invariant.
